@@ -76,4 +76,48 @@ theorem invRec_at_zero (m0 t1 : ℝ) : invRec m0 t1 0 = -m0 := M.invRec_at_zero 
 theorem satRec_at_zero (m0 t1 : ℝ) : satRec m0 t1 0 = 0 := M.satRec_at_zero m0 t1
 theorem monoExp_at_zero (m0 td : ℝ) : monoExp m0 td 0 = m0 := M.monoExp_at_zero m0 td
 
+/-! ### TransientSteadyStateWithPreparation, WASABI, WASABITI: the analytic partial derivatives evaluated by the driver
+(`tss_d*`, `wasabi_d*`, `wasabiti_d*` in `Model/Signal.lean`) are the derivatives of the closed forms -/
+theorem tss_hasDerivAt_m0 (m0 t1 alpha ts tr scal delay : ℝ) :
+    HasDerivAt (fun m => tss m t1 alpha ts tr scal delay) (tss_dm0 m0 t1 alpha ts tr scal delay) m0 :=
+  M.tss_hasDerivAt_m0 m0 t1 alpha ts tr scal delay
+theorem tss_hasDerivAt_t1 (m0 t1 alpha ts tr scal delay : ℝ) (h : t1 ≠ 0)
+    (hden : 1 - t1 * (Real.log (Real.cos alpha) / tr) ≠ 0) :
+    HasDerivAt (fun t => tss m0 t alpha ts tr scal delay) (tss_dt1 m0 t1 alpha ts tr scal delay) t1 :=
+  M.tss_hasDerivAt_t1 m0 t1 alpha ts tr scal delay h hden
+theorem tss_hasDerivAt_alpha (m0 t1 alpha ts tr scal delay : ℝ) (hcos : Real.cos alpha ≠ 0)
+    (hden : 1 - t1 * (Real.log (Real.cos alpha) / tr) ≠ 0) :
+    HasDerivAt (fun a => tss m0 t1 a ts tr scal delay) (tss_dalpha m0 t1 alpha ts tr scal delay) alpha :=
+  M.tss_hasDerivAt_alpha m0 t1 alpha ts tr scal delay hcos hden
+/-- without preparation (scaling 1, no delay) the model is the plain approach to the steady state -/
+theorem tss_no_preparation (m0 t1 alpha ts tr : ℝ) : tss m0 t1 alpha ts tr 1 0 =
+    m0 / (1 - t1 * (Real.log (Real.cos alpha) / tr))
+      + (m0 - m0 / (1 - t1 * (Real.log (Real.cos alpha) / tr))) * Real.exp (-ts * (1 / t1 - Real.log (Real.cos alpha) / tr)) :=
+  M.tss_no_preparation m0 t1 alpha ts tr
+theorem wasabi_hasDerivAt_b0 (b0 rb1 c d offset tp b1nom gamma : ℝ)
+    (hx : tp * Real.sqrt ((b1nom * rb1 * gamma) ^ 2 + (offset - b0) ^ 2) ≠ 0) :
+    HasDerivAt (fun b => wasabi b rb1 c d offset tp b1nom gamma) (wasabi_db0 b0 rb1 c d offset tp b1nom gamma) b0 :=
+  M.wasabi_hasDerivAt_b0 b0 rb1 c d offset tp b1nom gamma hx
+theorem wasabi_hasDerivAt_rb1 (b0 rb1 c d offset tp b1nom gamma : ℝ)
+    (hx : tp * Real.sqrt ((b1nom * rb1 * gamma) ^ 2 + (offset - b0) ^ 2) ≠ 0) :
+    HasDerivAt (fun r => wasabi b0 r c d offset tp b1nom gamma) (wasabi_drb1 b0 rb1 c d offset tp b1nom gamma) rb1 :=
+  M.wasabi_hasDerivAt_rb1 b0 rb1 c d offset tp b1nom gamma hx
+theorem wasabi_hasDerivAt_c (b0 rb1 c d offset tp b1nom gamma : ℝ) :
+    HasDerivAt (fun v => wasabi b0 rb1 v d offset tp b1nom gamma) (wasabi_dc b0 rb1 c d offset tp b1nom gamma) c :=
+  M.wasabi_hasDerivAt_c b0 rb1 c d offset tp b1nom gamma
+theorem wasabi_hasDerivAt_d (b0 rb1 c d offset tp b1nom gamma : ℝ) :
+    HasDerivAt (fun v => wasabi b0 rb1 c v offset tp b1nom gamma) (wasabi_dd b0 rb1 c d offset tp b1nom gamma) d :=
+  M.wasabi_hasDerivAt_d b0 rb1 c d offset tp b1nom gamma
+theorem wasabiti_hasDerivAt_b0 (b0 rb1 t1 offset trec tp b1nom gamma : ℝ)
+    (hx : tp * Real.sqrt ((b1nom * rb1 * gamma) ^ 2 + (offset - b0) ^ 2) ≠ 0) :
+    HasDerivAt (fun b => wasabiti b rb1 t1 offset trec tp b1nom gamma) (wasabiti_db0 b0 rb1 t1 offset trec tp b1nom gamma) b0 :=
+  M.wasabiti_hasDerivAt_b0 b0 rb1 t1 offset trec tp b1nom gamma hx
+theorem wasabiti_hasDerivAt_rb1 (b0 rb1 t1 offset trec tp b1nom gamma : ℝ)
+    (hx : tp * Real.sqrt ((b1nom * rb1 * gamma) ^ 2 + (offset - b0) ^ 2) ≠ 0) :
+    HasDerivAt (fun r => wasabiti b0 r t1 offset trec tp b1nom gamma) (wasabiti_drb1 b0 rb1 t1 offset trec tp b1nom gamma) rb1 :=
+  M.wasabiti_hasDerivAt_rb1 b0 rb1 t1 offset trec tp b1nom gamma hx
+theorem wasabiti_hasDerivAt_t1 (b0 rb1 t1 offset trec tp b1nom gamma : ℝ) (h : t1 ≠ 0) :
+    HasDerivAt (fun t => wasabiti b0 rb1 t offset trec tp b1nom gamma) (wasabiti_dt1 b0 rb1 t1 offset trec tp b1nom gamma) t1 :=
+  M.wasabiti_hasDerivAt_t1 b0 rb1 t1 offset trec tp b1nom gamma h
+
 end C17
